@@ -60,6 +60,8 @@ def plan(tier, seed):
         jobs = split
         for suffix in langs.ALL_SUFFIXES:
             jobs.append({"k": "valgrind", "suffix": suffix, "seed": seed, "n": 12, "flavour": "rel", "part": 5})
+        # coverage-guided input generation (libFuzzer + ASan, in process); every artifact is re-judged at the CLI boundary
+        jobs.insert(0, {"k": "libfuzzer", "suffix": "rs", "seed": seed, "flavour": "rel", "seconds": 420, "forks": 6})
     return jobs
 
 
@@ -294,6 +296,8 @@ def run_job(job, ctx):
             out.append(judge(ctx, flavour, suffix, b, "diff", res, dict(job, i=i), diff=diff))
     elif k == "valgrind":
         out += _valgrind(job, ctx)
+    elif k == "libfuzzer":
+        out += _libfuzzer(job, ctx)
     elif k == "witness":
         data = job["input"].encode("utf-8")
         res = execute(ctx, flavour, suffix, data, job["mode"])
@@ -334,6 +338,109 @@ def _valgrind(job, ctx):
                                      "observed": res.brief(3000), "desc": dict(job, i=i)}))
         else:
             out.append(Case(HELD, key=key, nontrivial=b"<" in data, sets=sets, counters={"runs_valgrind": 1}))
+    return out
+
+
+FUZZ_SUFFIXES = ["Makefile", "bash", "c", "cc", "cpp", "cs", "css", "d.ts", "go", "go.mod", "go.sum", "go.work", "h", "htm", "html", "java",
+                 "js", "jsx", "kt", "kts", "makefile", "markdown", "md", "mk", "php", "phtml", "py", "pyi", "rb", "rs", "sh", "sql", "swift",
+                 "toml", "ts", "tsx", "xml", "yaml", "yml"]
+
+
+def _libfuzzer(job, ctx):
+    """libFuzzer + ASan as a coverage-guided *generator*: the in-process target (fuzz/fuzz_targets/parse_any.rs) parses the
+    input under every registered suffix or as a diff; crash artifacts are replayed through the real binary (release and
+    ASan builds) and only what reproduces there is a violation. Build failure or unreproduced artifacts are inconclusive."""
+    import glob
+    import shutil
+    import tempfile
+    from .. import build as bld
+    key = h(job)
+    proj = os.path.join(bld.CACHE, "fuzzproj")
+    src = os.path.join(bld.VERIF, "fuzz")
+    os.makedirs(os.path.join(proj, "fuzz_targets"), exist_ok=True)
+    shutil.copy(os.path.join(src, "fuzz_targets", "parse_any.rs"), os.path.join(proj, "fuzz_targets", "parse_any.rs"))
+    with open(os.path.join(proj, "Cargo.toml"), "w") as f:
+        f.write(open(os.path.join(src, "Cargo.toml.in")).read().replace("@REPO@", bld.REPO))
+    shutil.copy(os.path.join(bld.REPO, "Cargo.lock"), os.path.join(proj, "Cargo.lock"))
+    env = dict(os.environ, CARGO_NET_OFFLINE="true", CC="clang-14", CXX="clang++-14",
+               CFLAGS="-fsanitize=address,fuzzer-no-link -fno-omit-frame-pointer")
+    tdir = os.path.join(bld.CACHE, "t-fuzz")
+    b = subprocess.run(["cargo", "+nightly", "fuzz", "build", "--fuzz-dir", proj, "--target-dir", tdir, "parse_any"],
+                       env=env, stdout=subprocess.PIPE, stderr=subprocess.STDOUT, text=True)
+    exe = os.path.join(tdir, bld.TARGET_TRIPLE, "release", "parse_any")
+    if b.returncode != 0 or not os.path.exists(exe):
+        return [Case(INCONCLUSIVE, key=key, summary="libFuzzer target did not build: %s" % b.stdout[-400:], evals=0)]
+    work = tempfile.mkdtemp(prefix="fuzz.", dir=run.scratch_root())
+    corpus = os.path.join(work, "corpus")
+    arts = os.path.join(work, "artifacts") + "/"
+    os.makedirs(corpus)
+    os.makedirs(arts)
+    r = rng("c04fuzz", job["seed"])
+    for i, suffix in enumerate(FUZZ_SUFFIXES):
+        for j in range(4):
+            lang = langs.SUFFIX_LANG[suffix]
+            data = soup.soup(r, lang, 30).encode("utf-8") if j else _seed_files(suffix, job["seed"])[0][:3000]
+            with open(os.path.join(corpus, "s%d_%d" % (i, j)), "wb") as f:
+                f.write(bytes([i | (0x80 if j % 2 else 0)]) + data)
+    p = subprocess.run([exe, corpus, "-max_total_time=%d" % job["seconds"], "-timeout=20", "-max_len=8192", "-fork=%d" % job["forks"],
+                        "-ignore_crashes=1", "-ignore_timeouts=1", "-ignore_ooms=1", "-detect_leaks=0", "-rss_limit_mb=4096",
+                        "-artifact_prefix=" + arts, "-print_final_stats=1"],
+                       env=dict(os.environ, ASAN_OPTIONS="detect_leaks=0"), stdout=subprocess.PIPE, stderr=subprocess.STDOUT, text=True,
+                       timeout=job["seconds"] + 600)
+    m = re.findall(r"#(\d+): cov: (\d+) ft: (\d+) corp: (\d+)", p.stdout)
+    execs, cov, ft, corp = (int(x) for x in m[-1]) if m else (0, 0, 0, 0)
+    out = []
+    crashes = sorted(glob.glob(arts + "crash-*"))[:200]
+    confirmed = 0
+    for art in crashes:
+        raw = open(art, "rb").read()
+        if not raw:
+            continue
+        sel = raw[0] % (len(FUZZ_SUFFIXES) + 1)
+        try:
+            text = raw[1:].decode("utf-8")
+        except UnicodeDecodeError:
+            continue
+        if sel == len(FUZZ_SUFFIXES):
+            # a diff: replay in diff mode next to an empty tree
+            for fl in ("rel", "asan"):
+                if fl not in ctx.bins:
+                    continue
+                root = run.make_repo({})
+                try:
+                    res = run.run(ctx.bins[fl], [], root, stdin=text.encode("utf-8"), env=_env(fl, "diff"))
+                finally:
+                    run.rm(root)
+                if _is_bad(res):
+                    confirmed += 1
+                    out.append(Case(VIOLATED, key=h([art]), nontrivial=True, sig="C04/%s/diff-text" % signature(res),
+                                    summary="libFuzzer-found diff text crashes the CLI (%s build): %s" % (fl, res.err_text()[:300]),
+                                    witness={"diff": text[:3000], "observed": res.brief(2500)}))
+                    break
+            continue
+        suffix = FUZZ_SUFFIXES[sel]
+        data = text.encode("utf-8")
+        for fl in ("rel", "asan"):
+            if fl not in ctx.bins:
+                continue
+            res = execute(ctx, fl, suffix, data, "scan")
+            c = judge(ctx, fl, suffix, data, "scan", res, dict(job, artifact=os.path.basename(art)))
+            if c.status == VIOLATED:
+                confirmed += 1
+                out.append(c)
+                break
+    unconfirmed = len(crashes) - confirmed
+    timeouts = len(glob.glob(arts + "timeout-*")) + len(glob.glob(arts + "oom-*"))
+    shutil.rmtree(work, ignore_errors=True)
+    if execs < 1000:
+        out.append(Case(INCONCLUSIVE, key=key, summary="libFuzzer ran only %d executions: %s" % (execs, p.stdout[-300:]), evals=0))
+    else:
+        out.append(Case(HELD, key=key, nontrivial=True, evals=0,
+                        counters={"libfuzzer_executions": execs, "libfuzzer_coverage_edges": cov, "libfuzzer_features": ft,
+                                  "libfuzzer_corpus_units": corp, "libfuzzer_crash_artifacts": len(crashes),
+                                  "libfuzzer_artifacts_confirmed_at_cli": confirmed, "libfuzzer_artifacts_not_reproduced_at_cli": unconfirmed,
+                                  "libfuzzer_timeout_or_oom_artifacts": timeouts},
+                        sets={"suffix_mode_build": ["*/inprocess/libfuzzer-asan"]}))
     return out
 
 
